@@ -1064,6 +1064,7 @@ def run(ctx):
             ctx.prove('theories/Props/C12_seq.v')
         if consts_ok:
             ctx.prove('theories/Props/C12_explog.v')
+            ctx.prove('theories/Props/C12_series.v')    # exp of a pure quaternion = its power series (Model/C12_Series.v)
         with ctx.timed('correspond'):
             try:
                 sym_num(ctx, g, MOD, 400 if ctx.stats.get('tconst:restructured') else ctx.n(25, 400))
